@@ -117,7 +117,7 @@ template <class C> static int run(int argc, char** argv, long failk) {
     int n = atoi(argv[2]); unsigned long seed0 = strtoul(argv[3], nullptr, 10); TR.open(argv[4]); HASH = argv[5];
     for (int i = 6; i < argc; i++) PROG.push_back(vh::split(argv[i], ','));
     N = (int)PROG.size(); long steps = 0, stuck = 0; vh::Timer tm; static const int dens[8] = {1, 3, 10, 40, -1, -2, -3, -5};
-    for (int r = 0; r < n && stuck < 10; r++) {
+    for (int r = 0; r < n && stuck < (getenv("VERIF_MAXSTUCK") ? atoi(getenv("VERIF_MAXSTUCK")) : 10); r++) {
         TR.begin_exec(); Drv<C>::cfg(failk > 0);
         untrack_all(); g_log_destroy = false; C* c = make<C>(); g_log_destroy = true; g_copies = 0; g_fail_copy = failk;
         Sched S; S.stall_limit = 40000; S.log_schedule = true; focus_only(false);
@@ -129,7 +129,11 @@ template <class C> static int run(int argc, char** argv, long failk) {
         TR.sched(S.sched_log);
         if (rc != RC_OK) { ++stuck; TR.emit("{\"e\":\"Stuck\",\"rc\":\"%s\"}", rc_name(rc).c_str()); S.join_all(); continue; }
         S.join_all(); g_fail_copy = -1;
-        Drv<C>::final(*c); g_log_destroy = false; delete c;
+        // the final sequential inspection runs on a logical thread too: a container that an earlier fault left wedged must end as a Stuck event, not hang the harness
+        { Sched F; F.stall_limit = 40000; F.spawn(1, [&](int) { Drv<C>::final(*c); }); int frc = F.finish(4000000); steps += F.steps;
+          if (frc != RC_OK) { ++stuck; TR.emit("{\"e\":\"Stuck\",\"rc\":\"%s\",\"at\":\"final\"}", rc_name(frc).c_str()); F.join_all(); continue; }
+          F.join_all(); }
+        g_log_destroy = false; delete c;
     }
     TR.close();
     printf("{\"paths\":%d,\"steps\":%ld,\"stuck\":%ld,\"wall\":%.2f}\n", n, steps, stuck, tm.s());
